@@ -17,6 +17,13 @@ static T0: std::sync::Mutex<Option<tokio::time::Instant>> = std::sync::Mutex::ne
 static RNG_KEY: AtomicU64 = AtomicU64::new(0);
 static RNG_CTR: AtomicU64 = AtomicU64::new(0);
 static QID_BITS: AtomicU32 = AtomicU32::new(16);
+static QID_HIGH: std::sync::atomic::AtomicBool = std::sync::atomic::AtomicBool::new(false);
+
+/// Low-entropy 4-byte draws come from the top of the range (0xffff_fff8..) instead of the
+/// bottom: query ids at and next to 0xffff.
+pub fn set_qid_high(high: bool) {
+    QID_HIGH.store(high, Ordering::SeqCst);
+}
 pub static RANDOM_BYTES_SERVED: AtomicU64 = AtomicU64::new(0);
 
 thread_local! {
@@ -142,7 +149,8 @@ fn fill_random(buf: &mut [u8]) {
         let bits = QID_BITS.load(Ordering::Relaxed);
         if bits < 16 {
             let v = u32::from_le_bytes([buf[0], buf[1], buf[2], buf[3]]);
-            let v = v & ((1u32 << bits) - 1);
+            let mask = (1u32 << bits) - 1;
+            let v = if QID_HIGH.load(Ordering::Relaxed) { (v & mask) | !mask } else { v & mask };
             buf.copy_from_slice(&v.to_le_bytes());
         }
     }
